@@ -581,7 +581,11 @@ def gap_ops(case, g):
         cols.append({"name": "Nanoseconds", "type": "i4", "vals": [g["const_ns"]] * len(ts)})
     th = case["th"]
     call = "gap('%s')" % g["fmt"](th)
-    return [agg_op("run" if g["run"] else "accum", [cols], chain=[call] if g["run"] else None, call=None if g["run"] else call)], ep
+    ops = [agg_op("run" if g["run"] else "accum", [cols], chain=[call] if g["run"] else None, call=None if g["run"] else call)]
+    if g["run"]:
+        # a pipeline: count over the gap table - count's input rows are the reported pairs (possibly none)
+        ops.append(agg_op("run", [cols], chain=[call, "count(*)"]))
+    return ops, ep
 
 
 GAP_SCALES = [(1, lambda th: "%dSec" % th), (60, lambda th: "%dMin" % th), (60, lambda th: "%dSec" % (60 * th)), (3600, lambda th: "%dH" % th),
@@ -606,13 +610,22 @@ def eval_gap(case, ops, ep, obs, known):
         return ["%s returned no gap table (%s)" % (what, why)], kf
     real = list(zip(by["Epoch"], by["End"]))
     want = [(ep[k - 1], ep[k]) for k in case["pairs"]]
+    kn = [(ep[k - 1], ep[k]) for k in case["known"]]
+    if len(obs) > 1 and (real == want or real == kn):
+        o2 = last_out(obs[1])
+        if isinstance(o2, dict) and o2.get("panic"):
+            bad.append("%s | count(*) panicked: %s" % (what, o2["panic"]))
+        else:
+            by2, why2 = out_cols(o2)
+            cnt = by2["Count"][0] if by2 is not None and "Count" in by2 and len(by2["Count"]) == 1 else None
+            if not num_eq(cnt, len(real)):
+                bad.append("the pipeline %s | count(*) returned %s (%s): count's input is the gap table of %d row(s) %s" % (what, cnt, why2 or "ok", len(real), real))
     if real == want:
         return bad, kf
-    kn = [(ep[k - 1], ep[k]) for k in case["known"]]
     if "GapIgnoresNanos" in case["hit"] and "GapIgnoresNanos" in known and real == kn:
         kf.add("GapIgnoresNanos")
         return bad, kf
-    return ["%s reported the pairs %s; the pairs whose time difference exceeds the threshold are %s" % (what, real, want)], kf
+    return bad + ["%s reported the pairs %s; the pairs whose time difference exceeds the threshold are %s" % (what, real, want)], kf
 
 
 def run_c23(tier):
